@@ -3,6 +3,7 @@ package main
 import (
 	"fmt"
 	"sort"
+	"strings"
 
 	"golang.org/x/tools/go/ssa"
 )
@@ -100,6 +101,9 @@ func ruleA2Stale(p *Prog) *RuleResult {
 									}
 									switch x := u.(type) {
 									case *ssa.Call:
+										if !mayWriteThrough(p, x, v) {
+											continue // a read of the old container (its cardinality, a membership test) harms nobody
+										}
 										bad = fmt.Sprintf("the container read from the slot at %s is used at %s, after the gate at %s may have replaced the slot by a clone: the write goes to the old, possibly shared container", p.ipos(i2), p.ipos(x), p.ipos(g))
 									case *ssa.Store:
 										if x.Val == v {
@@ -109,7 +113,7 @@ func ruleA2Stale(p *Prog) *RuleResult {
 										// followed one step: a call on the converted value
 										if uv, ok := u.(ssa.Value); ok && uv.Referrers() != nil {
 											for _, u2 := range *uv.Referrers() {
-												if c2, ok := u2.(*ssa.Call); ok && before(g, c2) {
+												if c2, ok := u2.(*ssa.Call); ok && before(g, c2) && mayWriteThrough(p, c2, uv) {
 													bad = fmt.Sprintf("the container read from the slot at %s is used at %s, after the gate at %s may have replaced the slot by a clone", p.ipos(i2), p.ipos(c2), p.ipos(g))
 												}
 											}
@@ -129,4 +133,33 @@ func ruleA2Stale(p *Prog) *RuleResult {
 		}
 	}
 	return res
+}
+
+// mayWriteThrough: the call may write the memory of argument v — an interface method of the in-place
+// families (i..., lazyI...), or a static callee whose effect summary mutates that parameter.
+func mayWriteThrough(p *Prog, c *ssa.Call, v ssa.Value) bool {
+	if c.Call.IsInvoke() {
+		if c.Call.Value != v {
+			// v is an operand of an interface call: in-place kernels do not write operands (A1.kernel)
+			return false
+		}
+		n := c.Call.Method.Name()
+		return (len(n) > 1 && n[0] == 'i' && n[1] >= 'a' && n[1] <= 'z' && n != "isEmpty" && n != "isFull" && n != "intersects" && n != "iterate") || strings.HasPrefix(n, "lazyI")
+	}
+	g := c.Call.StaticCallee()
+	if g == nil {
+		return true
+	}
+	osum := p.OWN().Sum(g)
+	if osum == nil {
+		return true
+	}
+	for k, a := range c.Call.Args {
+		if a == v {
+			if e := osum.mut[k]; e != nil && (e.shallow || e.deep || len(e.cells) > 0) {
+				return true
+			}
+		}
+	}
+	return false
 }
